@@ -1,7 +1,7 @@
 """C13 piecewise-linear approximation: 17 constraint types x parameters x argument intervals x tolerances x
 integrality on the real mp::PLApproximate<Con>, judged by a long-double libm reference with per-segment
 extremum search and a dense grid.  One forked child per case with a 10 s horizon; timed-out cases are re-run
-alone with 120 s before they are called non-terminating."""
+with a 120 s horizon before they are called non-terminating (horizons are CPU time of the child)."""
 import json, os, subprocess, sys
 from concurrent.futures import ThreadPoolExecutor
 import vbuild, vcheck
@@ -79,13 +79,13 @@ def merge_violations(results):
 
 
 def rerun_timeouts(chk, binary, timeouts):
-    """A case that hit the 10 s horizon is re-run with nothing else running and a 120 s horizon."""
+    """The first timed-out case of every function instance is re-run with a 120 s (CPU) horizon."""
     if not timeouts:
         return
     groups = {}
     for c in timeouts:
-        groups.setdefault((sig_name(c), c['ubErr'], c['xint']), []).append(c)
-    keys = sorted(groups, key=lambda k: (k[0], k[1], k[2]))
+        groups.setdefault(sig_name(c), []).append(c)
+    keys = sorted(groups)
     chosen = keys[:MAX_RERUN_GROUPS]
     if len(keys) > MAX_RERUN_GROUPS:
         chk.not_exhaustive('more than %d distinct timeout groups (%d); only the first %d were re-run with the '
@@ -96,16 +96,18 @@ def rerun_timeouts(chk, binary, timeouts):
         p = subprocess.run([binary] + case_args(c) + ['--horizon', '120'], capture_output=True, text=True,
                            env=dict(os.environ, ASAN_OPTIONS='detect_leaks=0', LC_ALL='C'))
         return k, c, p
-    # the re-runs go one after another: "alone"
-    for k in chosen:
-        k, c, p = one(k)
+    # the horizon is CPU time of the child (setitimer ITIMER_PROF), so co-running re-runs do not shorten it
+    with ThreadPoolExecutor(max_workers=MAX_RERUN_GROUPS) as ex:
+        reruns = list(ex.map(one, chosen))
+    for k, c, p in reruns:
         chk.add('timeouts_rerun_120s')
         recs = vcheck.parse_jsonl(p.stdout)
         status = [r for r in recs if r.get('type') == 'status']
         st = status[0]['v'] if status else 'no-status'
         if st == 'timeout':
-            chk.violation('%s non-termination (120 s horizon) ubErr=%g%s' % (k[0], k[1], ' int' if k[2] else ''),
-                          {'case': c, 'cases_in_group': len(groups[k]), 'horizon_s': 120}, c)
+            chk.violation('%s non-termination (120 s CPU horizon)' % k,
+                          {'case': c, 'timed_out_cases_of_this_function': len(groups[k]), 'horizon_s': 120,
+                           'tolerances': sorted(set(g['ubErr'] for g in groups[k]))}, c)
         else:
             chk.add('timeouts_finished_within_120s')
             for r in recs:
@@ -129,8 +131,9 @@ def main(tier, seed):
     if probes:
         chk.set('unjudged_probes', probes)
     # ---- vacuity guards
-    if chk.cov.get('cases', 0) != chk.cov.get('space_cases', -1):
-        chk.broken.append('executed %s cases of an enumerated space of %s' % (chk.cov.get('cases'), chk.cov.get('space_cases')))
+    if chk.cov.get('cases', 0) + chk.cov.get('skipped_after_timeouts', 0) != chk.cov.get('space_cases', -1):
+        chk.broken.append('executed %s (+%s skipped) cases of an enumerated space of %s'
+                          % (chk.cov.get('cases'), chk.cov.get('skipped_after_timeouts', 0), chk.cov.get('space_cases')))
     for fn in FNS:
         if chk.cov.get('judged_' + fn, 0) == 0:
             chk.broken.append('constraint type %s produced zero judged approximations' % fn)
